@@ -241,6 +241,8 @@ func qAtomText(a *qAtom) string {
 			return fmt.Sprintf("%s::%s", a.Name, expr)
 		}
 		return fmt.Sprintf("%s:%s", a.Name, expr)
+	case "sub_cap":
+		return fmt.Sprintf(`@s:id:%d @s:cdata:"(?P<%s>%s)" cdata:@s:%s@ sport:%d`, a.N, a.Name, a.Tok, a.Name, a.P)
 	case "sub_port":
 		return fmt.Sprintf("@s:cport:%d sport:@s:sport@", a.N)
 	case "sub_id":
